@@ -76,6 +76,8 @@ let handle (case : string) (out : string) : unit =
   let impl = List.map canon (String.split_on_char ';' out) in
   let model = model_trace tsz ops in
   if impl <> model then report_diverge "C02" case out (String.concat ";" model);
+  if tag = "A" then
+    count (if List.exists (fun s -> String.length s > 1 && s.[0] = 'L') impl then "api:reached-valid" else "api:not-valid");
   (* ---- oracles on the implementation's output only ---- *)
   let iobs = List.map obs_of_string impl in
   let panicked = List.exists (fun s -> starts_with "PANIC" s) impl in
